@@ -146,6 +146,7 @@ def observe(cfg, dicts):
     list(cfg.select(*dicts, solver=rec))
     return dp, cols, dpv, rec.objs, poly
 
+MISSING = []
 def nondefault_columns(ast, cfg):
     """ids of the columns that stand for 'a non-default alternative of a defaulted Any/Xor is taken',
     found from the STRUCTURE (never from the .prio attribute): in a cc.Any built with a default that
@@ -157,12 +158,17 @@ def nondefault_columns(ast, cfg):
         d0 = default[0]
         n_args = len(atom_ids) + len(compound_objs)
         if n_args > 1 and d0 in atom_ids and (compound_objs or any(i != d0 for i in atom_ids)):
+            found = 0
             for c in obj.propositions:
                 if is_var(c) and c.id in atom_ids:
                     continue
                 if any(c is o for o in compound_objs):
                     continue
-                out.add(c.id)
+                out.add(c.id); found += 1
+            if not found:
+                # the rule has a default among several alternatives, yet no sub-proposition stands for "a non-default
+                # alternative is taken": nothing can carry the default priority
+                MISSING.append(str(getattr(obj, "id", "?")))
     def walk(a):
         if a["k"] in ("str", "var"):
             return
@@ -175,6 +181,7 @@ def nondefault_columns(ast, cfg):
             visit_any(a["default"], anyp, [c["id"] for c in a["ch"]], [])
         for c in a.get("ch", []):
             walk(c)
+    del MISSING[:]
     walk(ast)
     return out
 
@@ -359,6 +366,9 @@ def run(res, tier, seed):
             continue
         done += 1
         nd = nondefault_columns(ast, cfg)
+        if MISSING:
+            report(res, cfg, nd, f"defaulted rule(s) {MISSING[:3]} of {cfg!r} have a default among several alternatives but no sub-proposition for the non-default branch: "
+                                 f"the default priorities cannot prefer the default", {"op": "missing-branch", "cfg": strip(ast)})
         if shadowed_default(cfg, nd):
             res.count("untagged_twin_of_nondefault_branch")
         configs.append((ast, cfg, dicts, dp, cols, dpv, objs, poly, nd))
@@ -465,6 +475,9 @@ def replay(payload):
     ast = json.loads(json.dumps(r["cfg"]))
     cfg = build_tracked(ast)
     nd = nondefault_columns(ast, cfg)
+    if r.get("op") == "missing-branch":
+        print("configurator", cfg, "defaulted rules without a non-default branch:", MISSING)
+        return 1 if MISSING else 0
     if r.get("op") == "dpv":
         poly = cfg.ge_polyhedron
         cols = [v.id for v in poly.A.variables]
